@@ -85,16 +85,16 @@ func (g *c02tCfg) jsonNames() bool { return g.v3() || g.dir }
 
 // typed message of either direction
 type c02tMsg struct {
-	kind  string // NUM NAME SIZE COMP DATA MD5 EXIT SUCCI ACK SUCCS KEEP FAIL OTHER
-	n     int64  // NUM SIZE SUCCI, ACK len
-	step  int64  // ACK step
-	b     bool   // COMP
-	name  c01tName
-	frame []byte // DATA: the wire payload (base64 characters / escaped bytes)
-	chunk []byte // DATA, protocol 1: the decoded chunk (nil with chunkOK=false: undecodable)
+	kind    string // NUM NAME SIZE COMP DATA MD5 EXIT SUCCI ACK SUCCS KEEP FAIL OTHER
+	n       int64  // NUM SIZE SUCCI, ACK len
+	step    int64  // ACK step
+	b       bool   // COMP
+	name    c01tName
+	frame   []byte // DATA: the wire payload (base64 characters / escaped bytes)
+	chunk   []byte // DATA, protocol 1: the decoded chunk (nil with chunkOK=false: undecodable)
 	chunkOK bool
-	raw   []byte // MD5: digest; EXIT / SUCCS: the decoded string
-	why   string // OTHER: what was wrong
+	raw     []byte // MD5: digest; EXIT / SUCCS: the decoded string
+	why     string // OTHER: what was wrong
 	// SUCCS interpreted as the JSON reply of recvFileNameV3
 	jsName string
 	jsSize int64
